@@ -193,6 +193,12 @@ def step_code(cfg_step):
     return "?"
 
 
+def _hexless(exc):
+    import re  # pylint: disable=import-outside-toplevel
+
+    return re.sub(r"0x[0-9a-fA-F]+", "0x..", str(exc))[:200]
+
+
 def failing_step(obs, pipe):
     """name of the step during which pandora.run raised (single scale: steps complete in pipeline order)"""
     names = list(pipe)
@@ -213,7 +219,6 @@ def c06_scenes(tier, seed):
         for kind in ("generic", "ramp", "flat"):
             sc.append(dict(base, ny=ny, nx=nx, win=win, subpix=subpix, measure=measure, dmin=-2, dmax=2,
                            img={"kind": kind, "seed": seed, "shift": 1}))
-    o = 0 if True else 1
     # masks, per-pixel grids, one-sided intervals, NaN invalid value
     sc.append(dict(base, ny=4, nx=7, win=1, subpix=1, measure="sad", dmin=-2, dmax=1, inv="NaN",
                    lmask=[[1, 2, 1], [2, 4, 2]], rmask=[[0, 3, 1], [2, 2, 5]], img={"kind": "ramp", "seed": seed, "shift": -1}))
@@ -231,7 +236,6 @@ def c06_scenes(tier, seed):
                    img={"kind": "generic", "seed": seed + 2, "shift": -2}))
     sc.append(dict(base, ny=3, nx=6, win=1, subpix=1, measure="sad", dmin=-1, dmax=1, inv=-9999,
                    img={"kind": "const", "seed": 0, "shift": 0}))
-    del o
     return sc
 
 
@@ -299,7 +303,7 @@ def c06_run(case, compare):
                         cls = max(cls, c, key=order.index)
             n += 1
             viol.append({"clause": "totality", "key": f"C06/totality/subpixel_refinement({method})/{type(e).__name__}/{cls}",
-                         "detail": f"pandora.run raised {type(e).__name__}: {str(e)[:200]} in step {step} of "
+                         "detail": f"pandora.run raised {type(e).__name__}: {_hexless(e)} in step {step} of "
                                    f"{list(pipe)} on scene {scene}"})
         else:
             trivial += 1  # a failure of another step is not this property's business (C04/C14 look at those)
